@@ -25,6 +25,7 @@ package main
 
 import (
 	"encoding/json"
+	"flag"
 	"fmt"
 	"io"
 	"log/slog"
@@ -60,6 +61,11 @@ type Case struct {
 	Impl   [][]int  `json:"impl"` // after each operation: notices handled so far by (0,0) (0,1) (0,2) (0,3) (1,0) (1,1) (1,2) (1,3)
 	Err    string   `json:"err,omitempty"`
 	Stray  []string `json:"stray,omitempty"` // OnTerminated naming something that looks like the target but is not its address
+	// Twin: /user/p of node 1 has a living child under the SAME logical address as the target (both nodes run the same code, so
+	// the names coincide) and watches the target; the notice about the target of node 0 must leave the children table of node 1's
+	// /user/p alone. TwinLost: what ctx.Children() of that actor showed after the script (empty = the twin was still listed).
+	Twin     bool   `json:"twin,omitempty"`
+	TwinLost string `json:"twin_lost,omitempty"`
 }
 
 func actorName(a int) string {
@@ -398,7 +404,7 @@ func (d *driver) fresh() error {
 
 // runOnce runs the script on the current pair of systems with a fresh target; false = a step was lost.
 func (d *driver) runOnce(c *Case) (url string, ok bool) {
-	c.Impl, c.Err, c.Stray = c.Impl[:0], "", nil
+	c.Impl, c.Err, c.Stray, c.TwinLost = c.Impl[:0], "", nil, ""
 	if d.e == nil {
 		if err := d.fresh(); err != nil {
 			c.Err = err.Error()
@@ -422,6 +428,19 @@ func (d *driver) runOnce(c *Case) (url string, ok bool) {
 		}})
 		if why := e.settle(0); why != "" {
 			c.Err = "spawning the target: " + why
+			return url, false
+		}
+	}
+	twinRef := vivid.NewActorRef(e.sys[1].PhysicalAddress(), taddr)
+	if c.Twin {
+		e.sys[1].Tell(e.obsRef(1, 0), &cmd{do: func(ctx vivid.ActorContext) {
+			ctx.ActorOfF(func() vivid.Actor { return idleActor{} }, func(ds *vivid.ActorDescriptor) {
+				ds.WithName(tname)
+				ds.WithDispatcherProvider(e.tracked())
+			})
+		}})
+		if why := e.settle(1); why != "" {
+			c.Err = "spawning the twin child on node 1: " + why
 			return url, false
 		}
 	}
@@ -483,9 +502,39 @@ func (d *driver) runOnce(c *Case) (url string, ok bool) {
 			return url, false
 		}
 	}
+	if c.Twin {
+		// the children table of node 1's /user/p, read through the public API inside its own handler; then the twin is stopped
+		seen := make(chan string, 1)
+		e.sys[1].Tell(e.obsRef(1, 0), &cmd{do: func(ctx vivid.ActorContext) {
+			var names []string
+			found := false
+			for _, r := range ctx.Children() {
+				names = append(names, r.GetLogicalAddress())
+				if r.GetLogicalAddress() == taddr {
+					found = true
+				}
+			}
+			ctx.Terminate(twinRef, false)
+			if found {
+				seen <- ""
+			} else {
+				seen <- fmt.Sprintf("ctx.Children() of /user/p on node 1 = %v: its living child %s is gone from the table", names, taddr)
+			}
+		}})
+		select {
+		case c.TwinLost = <-seen:
+		case <-time.After(quietTimeout):
+			c.Err = "reading the children table of /user/p on node 1 timed out"
+			return url, false
+		}
+		if why := e.settle(1); why != "" {
+			c.Err = "stopping the twin child: " + why
+			return url, false
+		}
+	}
 	e.mu.Lock()
 	for u := range e.counts {
-		if u != url && strings.HasSuffix(u, taddr) {
+		if u != url && strings.HasSuffix(u, taddr) && !(c.Twin && u == twinRef.URL().String()) {
 			c.Stray = append(c.Stray, u)
 		}
 	}
@@ -548,6 +597,11 @@ var phName = [...]string{"alive", "terminating", "gone"}
 //   - a Watch that races with the termination (the target is terminating) or follows it (nobody is registered under
 //     the address) is due one notice at once; only the parent's racing Watch is not (it is about to be notified)
 func monitor(c *Case) (viol []vh.Violation) {
+	if c.TwinLost != "" {
+		viol = append(viol, vh.Violation{Kind: "C05:remote-notice:living-child-dropped", Detail: "a termination notice about an actor of ANOTHER node that has the " +
+			"same logical address as a living local child made the parent forget that child (it would finish terminating before the child, and Shutdown would not wait for it): " + c.TwinLost,
+			Case: *c, Sig: map[string]string{"config": "two-systems"}})
+	}
 	add := func(i int, kind, detail string, sig map[string]string) {
 		if len(viol) < 4 {
 			sig["config"] = "two-systems"
@@ -749,6 +803,12 @@ func gen(rng *vh.RNG) Case {
 	for n := rng.Range(0, 3); n > 0; n-- {
 		c.Ops = append(c.Ops, req(75))
 	}
+	// a fifth of the scripts: node 1's /user/p has a child under the target's logical address and watches the target
+	if rng.Chance(1, 5) {
+		c.Twin = true
+		at := rng.Intn(len(c.Ops) + 1)
+		c.Ops = append(c.Ops[:at], append([]Op{{K: "W", N: 1, A: 0}}, c.Ops[at:]...)...)
+	}
 	// now and then a redundant termination step somewhere: a second terminate request, a release with nothing held
 	if rng.Chance(1, 8) {
 		extra := Op{K: "TE"}
@@ -778,13 +838,21 @@ func corpus() []Case {
 		{Ops: []Op{w(1, 3), w(1, 3), w(0, 3), tb, w(1, 3), u(0, 3), w(0, 2), te, w(0, 3), w(1, 3), u(1, 3)}},
 		// an address that never existed
 		{Absent: true, Ops: []Op{w(0, 1), w(1, 1), u(1, 1), w(1, 1), w(0, 0)}},
+		// the namesake of the parent on the other node has a child under the target's logical address
+		{Twin: true, Ops: []Op{w(1, 0), w(0, 1), tb, te}},
+		{Twin: true, Cached: true, Ops: []Op{w(0, 0), tb, w(1, 0), te, w(1, 0)}},
 	}
 }
 
 // ---------------------------------------------------------------- recording
 
+var twins int
+
 func record(out *vh.Out, d *driver, c *Case) {
 	late := d.run(c)
+	if c.Twin && c.Err == "" {
+		twins++
+	}
 	v := append(monitor(c), late...)
 	// input distribution
 	phase := phAlive
@@ -888,6 +956,7 @@ func record(out *vh.Out, d *driver, c *Case) {
 }
 
 func main() {
+	twinOnly := flag.Bool("twin", false, "only scripts in which /user/p of node 1 has a child under the target's logical address and watches the target (run by C05)")
 	f := vh.ParseFlags()
 	d := &driver{}
 	if f.Replay != "" {
@@ -927,6 +996,14 @@ func main() {
 	for i := 0; i < n; i++ {
 		cr, _ := rng.Derive()
 		c := gen(cr)
+		if *twinOnly && !c.Twin {
+			if c.Absent {
+				continue
+			}
+			c.Twin = true
+			at := cr.Intn(len(c.Ops) + 1)
+			c.Ops = append(c.Ops[:at], append([]Op{{K: "W", N: 1, A: 0}}, c.Ops[at:]...)...)
+		}
 		record(out, d, &c)
 		if d.stuck >= 4 {
 			// a tree on which the systems hang: every further script would cost the quiescence timeout; the hits are recorded
@@ -939,6 +1016,7 @@ func main() {
 		c := Case{Absent: true}
 		out.Add(&c, "", false, late)
 	}
+	out.Count("twin_scripts", fmt.Sprint(twins))
 	out.Count("pairs_of_systems_started", fmt.Sprint(d.starts))
 	out.Count("scripts_repeated_after_a_lost_step", fmt.Sprint(d.lost))
 	d.close()
